@@ -92,36 +92,103 @@ VFIX_CHK = "fun c => match c with (Some vs, Some e) => corr_vrows vs e | (None, 
 
 
 # ------------------------------------------------------------------ multi-process: observed sigma
+# Wave 8 (audit 5a, A5 / top-10 #5).  Until wave 7 sigma[l][i] was obtained by INVERTING the sample function on the stored fine
+# row i, and the model then rebuilt row i from it: the fine component was compared with itself.  Now every simulated path
+# carries, in a channel that does not feed the payoff (the jump component at two INTERMEDIATE times; Spot reads the value at
+# the last time only), the draw index it got from the shared counter and the pid of the worker that simulated it.  The
+# payoff underlying of the product (TagSpot, evaluated by the callback in the PARENT for every (it, path) pair of `res`, in
+# the order of `res`) logs that tag.  sigma[l][k] = draw index carried by the k-th path of level l the callback processed;
+# nothing of it is read from the statistics arrays.  The Coq model then predicts the stored row k = row of draw sigma[l][k].
+MP_DELAY = 0.002          # seconds a worker waits before it takes its draw index: the workers of a pool overlap, so the
+#                           draw order differs from the iteration order (non-identity sigma) in every run
+
+
+def _tag_classes():
+    """the two classes live in this module's namespace under their own names (pickled by reference by the pool, like ScriptedCoupling)"""
+    g = globals()
+    if "TagSpot" in g:
+        return g["TagSpot"], g["TaggedCoupling"]
+    from rpylib.product.underlying import Spot
+    from rpylib.montecarlo.path import StochasticJumpPath
+    from mcscript import ScriptedCoupling
+
+    class TagSpot(Spot):
+        """Spot at maturity (value = path[..., -1], as Spot) that logs the tag channel of every path it is evaluated on"""
+
+        def __init__(self):
+            self.log = []          # (level, draw index, worker pid) of the FINE component, in evaluation order (parent process)
+
+        def value(self, times, path, jump_path, payoff_underlying=None):
+            tag = float(np.asarray(jump_path)[..., 1])
+            if tag > 0:            # fine component (the coarse one carries -tag)
+                t = int(tag)
+                self.log.append((t // (1 << 24) - 1, t % (1 << 24) - 1, int(float(np.asarray(jump_path)[..., 2]))))
+            return path[..., -1]
+
+    class TaggedCoupling(ScriptedCoupling):
+        """ScriptedCoupling whose paths have 4 times: value at maturity = the scripted sample (as ScriptedCoupling), jump
+        component at the two intermediate times = (tag of (level, draw index), pid of the simulating process)"""
+
+        def _tagged_draw(self):
+            import os
+            import time
+            import mcscript
+            time.sleep(MP_DELAY * (1 + 2 * (os.getpid() % 3)))      # workers of unequal speed: draws are taken far from iteration order
+            c = mcscript.MP_COUNTERS[self.level]
+            with c.get_lock():
+                n = c.value
+                c.value = n + 1
+            f, co = self.sample(self.level, n)
+            return f, co, float((self.level + 1) * (1 << 24) + n + 1), float(os.getpid())
+
+        def simulate_one_path(self):
+            f, _, tag, pid = self._tagged_draw()
+            return StochasticJumpPath(jump_times=np.array([0.0, 0.25, 0.5, 1.0]), diffusion_path=np.array([0.0, 0.0, 0.0, f]),
+                                      jump_path=np.array([0.0, tag, pid, 0.0]))
+
+        def simulate_one_path_with_coupling(self):
+            f, c, tag, pid = self._tagged_draw()
+            return StochasticJumpPath(jump_times=np.array([0.0, 0.25, 0.5, 1.0]),
+                                      diffusion_path=np.array([[0.0, 0.0, 0.0, f], [0.0, 0.0, 0.0, c]]),
+                                      jump_path=np.array([[0.0, tag, pid, 0.0], [0.0, -tag, pid, 0.0]]))
+
+    for cls in (TagSpot, TaggedCoupling):
+        cls.__qualname__ = cls.__name__
+        g[cls.__name__] = cls
+    return TagSpot, TaggedCoupling
+
+
 def mp_observe(spec):
-    """one REAL 2-process pricing of the scripted history; returns dict(Nl, rows[level] = [(fine, coarse)], sigma[level] = [draw index
-    stored under iteration index i], drawn[level])"""
+    """one REAL multi-process pricing (spec['nb_of_processes'] workers, real pathos pool) of the scripted history; returns
+    dict(Nl, rows[level] = [(fine, coarse)] as stored, sigma[level] = [draw index carried by the k-th path of the level the callback
+    processed] (from the TAG channel, not from the stored rows), pids[level], drawn[level])"""
+    import os
     import warnings
     from rpylib.montecarlo.multilevel.engine import Engine
     from rpylib.montecarlo.configuration import ConfigurationMultiLevel, ConvergenceRates
-    from mcscript import Shared, ScriptedCoupling, scripted_criteria, make_product, MP_COUNTERS, WarningCatcher
+    from rpylib.product.product import Product
+    from rpylib.product.payoff import PayoffOnTheFly
+    from mcscript import Shared, scripted_criteria, MP_COUNTERS, WarningCatcher
+    TagSpot, TaggedCoupling = _tag_classes()
     sh = Shared()
     sh.use_mp_counters = True
-    cp = ScriptedCoupling(D.sample_fn(spec["salt"], big=True), D.cost_fn(spec["ctab"]), df=spec["df"], shared=sh)
+    cp = TaggedCoupling(D.sample_fn(spec["salt"], big=True), D.cost_fn(spec["ctab"]), df=spec["df"], shared=sh)
     conf = ConfigurationMultiLevel(convergence_rates=ConvergenceRates(1.0, 2.0, 1.0), convergence_criteria=scripted_criteria(spec["atab"], spec["vtab"], sh),
-                                   initial_level=spec["L0"], maximum_level=spec["Lmax"], initial_mc_paths=spec["N0"], nb_of_processes=2, seed=None)
+                                   initial_level=spec["L0"], maximum_level=spec["Lmax"], initial_mc_paths=spec["N0"],
+                                   nb_of_processes=spec["nb_of_processes"], seed=None)
+    spot = TagSpot()
+    product = Product(payoff_underlying=spot, payoff=PayoffOnTheFly(lambda x: x), maturity=1.0, notional=spec["notional"])
     with WarningCatcher() as w, warnings.catch_warnings(), np.errstate(all="ignore"):
         warnings.simplefilter("ignore")
-        st = Engine(conf, cp).price(make_product(notional=spec["notional"]), rmse=0.125)
+        st = Engine(conf, cp).price(product, rmse=0.125)
         Nl = [int(x) for x in st.mlmc_results.Nl]
         fine = [np.array(st.simulation_payoff_with_fine_process(l)) for l in range(len(st.mc_statistics))]
         coarse = [np.array(st.simulation_payoff_with_coarse_process(l)) for l in range(len(st.mc_statistics))]
     drawn = [MP_COUNTERS[l].value for l in range(len(Nl))]
-    scale = Fraction(spec["df"]) * Fraction(spec["notional"])
-    sigma = []
-    for l in range(len(Nl)):
-        off = Fraction(D.pm_offset(0, l)[0])
-        sig = []
-        for f in fine[l]:
-            raw = Fraction(float(f)) / scale - off                   # sample_big: f = (n + 1) / 1024 + 16 l
-            n = (raw - 16 * l) * 1024 - 1
-            sig.append(int(n) if n.denominator == 1 and n >= 0 else -1)
-        sigma.append(sig)
-    return {"Nl": Nl, "rows": [list(zip(f, c)) for f, c in zip(fine, coarse)], "sigma": sigma, "drawn": drawn,
+    sigma = [[n for (l, n, _) in spot.log if l == lev] for lev in range(len(Nl))]
+    pids = [[p for (l, _, p) in spot.log if l == lev] for lev in range(len(Nl))]
+    return {"Nl": Nl, "rows": [list(zip(f, c)) for f, c in zip(fine, coarse)], "sigma": sigma, "pids": pids, "drawn": drawn,
+            "parent_pid": os.getpid(), "tags_logged": len(spot.log),
             "fallthrough": any("Initial number of Monte-Carlo paths" in m for m in w.messages),
             "atab": sh.alloc_answers, "vtab": sh.conv_answers}
 
